@@ -155,6 +155,25 @@ def run(ctx):
             else:
                 ctx.fail("C12-R2", gen.path, "gv weight of stream %s" % s_idx, "the trajectory of stream %s is generated with gv_weight[%s]: a stream's GV weight must be its own (another stream's weight would rescale it, and its own would do nothing)" % (s_idx, w_idx), cm.loc_of(t["span"]))
 
+    # a requested GV weight reaches the generator as it is (floored at 0, not capped): the variance
+    # target grows with the weight over the whole range
+    sg = p.body("engine::Condition::set_gv_weight")
+    if sg is not None:
+        from ..expr import to_clamp, stores as _stores, POS_INF
+        ebs = ExprBuilder(sg)
+        sts_ = [x for x in _stores(sg, ebs) if x[4][0] == "arg" and x[4][1] == 1]
+        okc = False
+        desc = "no store"
+        for bb, i, st, tgt, root, chain, val in sts_:
+            if chain and chain[0] == "gv_weight":
+                cl = to_clamp(val, lambda e: e[0] == "arg" and e[2] == "f")
+                desc = str(cl) if cl is not None else show(val)[:80]
+                okc = cl is not None and cl.hi == POS_INF and float(cl.lo) == 0.0 and not paths.guards(sg, bb, ebs)
+        if okc:
+            ctx.ok("C12-R2", "set_gv_weight stores max(f, 0): no upper cap between the caller's weight and the GV target", sg.loc())
+        else:
+            ctx.fail("C12-R2", sg.path, "weight cap", "set_gv_weight stores %s: a GV weight above the cap is silently replaced, so the variance stops following the weight" % desc, sg.loc())
+
     # "a stream without GV" is a stream whose USE_GV flag is off: Models::gv hands out GV
     # statistics (Some) only under the stream's use_gv flag - whatever the loader kept in gv_model
     gvb = cm.body_or_fail(ctx, p, "C12-R2", "model::Models::<'a>::gv")
